@@ -212,3 +212,16 @@ Definition buf_flat_line (l : buf_line) : list Z :=
       buf_flat_ret r ++ (match b with Ok d => buf_flat_bytes d | _ => [-2] end) ++ [len; cap] ++ buf_flat_opt pos
   end.
 Definition buf_flat (ops : list buf_op) : list Z := flat_map buf_flat_line (buf_trace buf_init ops).
+
+(* ------------------------------------------------------------------ ReadOnce *)
+
+(* func (b *Buffer) ReadOnce(reader io.Reader, buf []byte) (int, error): one reader.Read(buf); on an
+   error the buffer is untouched and (0, err) is returned, otherwise b.Write(buf[:num]).  The reader is
+   the environment: [rd] is what its single Read call delivered ([None] = it failed).  So ReadOnce is the
+   Write step on the delivered bytes -- every run-level theorem about op sequences with BWrite covers
+   sequences with ReadOnce (the harness executes a share of the writes through ReadOnce: token o<n>). *)
+Definition buf_read_once (s : buf_state) (rd : option (list Z)) : res (buf_state * option Z) unit :=
+  match rd with
+  | None => Ok (s, None)
+  | Some d => gs_bind (buf_write s d) (fun sn => Ok (fst sn, Some (snd sn)))
+  end.
